@@ -17,10 +17,10 @@ cp "$sd/demo_test.go" "$wt/$target"
 pkg="./$(dirname $target)"
 echo "## demo WITH the change (expected: FAIL)"
 go test -vet=off -count=1 -run "$rx" "$pkg" 2>&1 | tail -8
-git stash -q
+git checkout -q -- . 
 echo "## demo WITHOUT the change (expected: ok)"
 go test -vet=off -count=1 -run "$rx" "$pkg" 2>&1 | tail -4
-git stash pop -q
+git apply "$sd/patch.diff"
 rm -f "$wt/$target"
 } > "$out/verify.log" 2>&1
 cat "$out/verify.log"
